@@ -13,6 +13,9 @@ import sys
 import time
 import traceback
 
+if os.environ.get("PYTHONHASHSEED") != "0":  # deterministic verification conditions
+    os.environ["PYTHONHASHSEED"] = "0"
+    os.execv(sys.executable, [sys.executable] + sys.argv)
 HERE = os.path.dirname(os.path.abspath(__file__))
 ROOT = os.path.dirname(HERE)
 sys.path.insert(0, ROOT)
